@@ -887,6 +887,20 @@ static void child_main(const char *dir, const expect_t *x, const image_t *im, in
     snprintf(nbase, sizeof(nbase), "%s-n", dir);
     iom_pause(1); vh_mkdir_p(nbase); iom_pause(-1);
     vh_reset_counts();
+    /* file-number reuse after a crash (C13): every log found on disk is replayed and its number reserved, so
+       a correct recovery or later incarnation never truncates an EXISTING write-ahead log when it creates one */
+    {
+      size_t q;
+      for (q = 0; q < iom_nevents(); q++) {
+        const iom_event_t *e = iom_event(q);
+        if (e->op == IOP_CREATE && e->res >= 0 && e->pc == PC_LOG && (e->flags & IOM_F_NEWOBJ) && (e->flags & IOM_F_EXISTED)) {
+          vh_violation("C13", "existing-log-truncated-by-number-reuse", "%s: log #%llu already existed when the %s created (O_TRUNC) it again: a file number was reused for a live file",
+                       img, (unsigned long long)e->num, do_nested == 2 ? "recovered incarnation" : "recovery");
+          break;
+        }
+      }
+      vh_count("post_crash_traces_checked_for_number_reuse", 1);
+    }
     depth++;
     explore(nbase, S);
     depth--;
